@@ -43,6 +43,23 @@ MICRO_CFGS = [
 ]
 
 
+# the witness of C10_skip_nonmembers_refuted: a.c includes the excluded h.h (defines F0) and the out-of-tree
+# g.h (defines F1) and tests both
+_W_FILES = [[["r", "src", "a.c"], [["Inc", ["Q", ["h.h"]]], ["If", ["Defd", "F0"]], ["Code"], ["Endif"],
+                                  ["Inc", ["A", ["g.h"]]], ["If", ["Defd", "F1"]], ["Code"], ["Endif"]]],
+            [["r", "src", "h.h"], [["Def", "F0", "E"], ["Code"]]],
+            [["x", "inc1", "g.h"], [["Def", "F1", "E"], ["Code"]]]]
+_W_CFG = [["P0", [[["r", "src", "a.c"], [["x", "inc1"]], [], []]]]]
+CORPUS_EXTRA = [
+    ["lib", _W_FILES, _W_CFG, 1, [["Base", "h.h"]], []],
+    ["cli", _W_FILES, _W_CFG, 2, [["Base", "h.h"]], []],
+    ["cli", _W_FILES, _W_CFG, 3, [], [["Exact", ["src", "h.h"], False]]],
+    # an excluded COMPILED file that defines nothing, next to a kept one
+    ["lib", _W_FILES + [[["r", "src", "b.c"], [["Code"]]]], [["P0", _W_CFG[0][1] + [[["r", "src", "b.c"], [], [], []]]]], 4,
+     [["Exact", ["src", "b.c"], True]], [["Ext", "h"]]],
+]
+
+
 def micro_cases():
     out = []
     inroot = [f[0] for f in MICRO_FILES if under_root(f[0])]
@@ -105,7 +122,7 @@ class C10(Check):
     def generate(self):
         micro = micro_cases()
         self.dist["exhaustive_block"] = len(micro)
-        out = list(micro)
+        out = list(CORPUS_EXTRA) + list(micro)
         n_lib, n_cli, n_bad = (140, 45, 20) if self.tier == "quick" else (3000, 700, 300)
         out += [self.gen_case("lib") for _ in range(n_lib)]
         out += [self.gen_case("cli") for _ in range(n_cli)]
